@@ -670,6 +670,15 @@ func containsBigInt(v *Value) bool {
 		n, ok := new(big.Int).SetString(v.Raw, 10)
 		return !ok || n.Cmp(int64Min) < 0 || n.Cmp(int64Max) > 0
 	}
+	if v.Kind == "Float" {
+		// likewise a float literal strconv.ParseFloat reports as out of range
+		f, ok := new(big.Float).SetString(v.Raw)
+		if !ok {
+			return true
+		}
+		x, _ := f.Float64()
+		return math.IsInf(x, 0)
+	}
 	for _, i := range v.Items {
 		if containsBigInt(i) {
 			return true
